@@ -156,7 +156,7 @@ def sweep(mn, fixed, tier_fields):
                 got = fn(*args[:-2], aq=args[-2], rl=args[-1])
             else:
                 got = fn(*args)
-        except ValueError:
+        except Exception:   # any exception is a refusal (today always ValueError)
             res.count('refused_in_domain:' + mn)
             n += 1
             continue
@@ -216,7 +216,7 @@ def job_beyond(mn):
             res.evaluations += 1
             try:
                 got = apimap.call_encoder(asm, mn, f)
-            except ValueError:
+            except Exception:   # any exception is a refusal (today always ValueError)
                 continue
             try:
                 ok = got == expected_word(mn, f)
@@ -426,7 +426,7 @@ def replay(path):
         mn, f = case['mn'], case['fields']
         try:
             got = apimap.call_encoder(asm, mn, f)
-        except ValueError:
+        except Exception:   # any exception is a refusal (today always ValueError)
             got = None
         if got is not None:
             try:
